@@ -111,7 +111,8 @@ def do_step(step, objs):
             ver, s = step[1], unesc(step[2])
             obj = CLS[ver].from_rh_vector(s) if op == "fromrh" else CLS[ver](s)
             objs.append(obj)
-            return "%s:%s:%s" % (op, ver, step[2]), dig(observe(obj, ver)), "-", len(objs) - 1
+            # "bare" constructions are not observed: the object is pristine until the first accessor call of the history
+            return "%s:%s:%s" % (op, ver, step[2]), ("constructed" if len(step) > 3 and step[3] == "bare" else dig(observe(obj, ver))), "-", len(objs) - 1
         if op == "text":
             res = parse_cvss_from_text(unesc(step[1]))
             return "text:%s" % step[1], dig(sorted([type(r).__name__, r.clean_vector()] for r in res)), "-", None
@@ -267,11 +268,11 @@ def main():
         g0 = globals_digest()
         ev = {"kind": kind, "g0": g0}
         if kind == "accessors":
-            steps = [["new", it["ver"], it["s"]]] + [["call", 0, c] for c in it["calls"]]
+            steps = [["new", it["ver"], it["s"], "bare"]] + [["call", 0, c] for c in it["calls"]]
             ev["steps"] = run_steps(steps)
             # the pristine twin: each call on a fresh object of the same input, in this process
             for st, c in zip(ev["steps"][1:], it["calls"]):
-                st["ref"] = run_steps([["new", it["ver"], it["s"]], ["call", 0, c]])[1]["res"]
+                st["ref"] = run_steps([["new", it["ver"], it["s"], "bare"], ["call", 0, c]])[1]["res"]
                 st["refexc"] = "-"
             ev["steps"][0]["ref"] = ev["steps"][0]["res"]
             ev["steps"][0]["refexc"] = ev["steps"][0]["exc"]
